@@ -468,7 +468,7 @@ def main():
         "model_disagreements": cov.get("model_disagreements", 0),
         "oracle_failures": cov.get("oracle_failures", 0),
         "input_distribution": cov.get("classes", {}),
-        "profiles": ["release (optimised)", "relchk (optimised + overflow-checks)"],
+        "profiles": ["release (optimised)", "relchk (optimised + overflow-checks + debug-assertions)"],
         "translator": tr_info[-300:] if isinstance(tr_info, str) else "",
         "lean_build_s": lean.get("build_s"),
         "exhaustive": bool(cov.get("exhaustive", False)),
